@@ -708,12 +708,36 @@ def install_builtins(I):
             raise Unsupported("log2 of symbolic value")
         return interp.native(lambda: math.log2(x))
 
+    def _gcd(interp, *a):
+        """symbolic gcd: a fresh g constrained to be a common divisor (sound over-approximation: the real gcd
+        satisfies every stated fact; 'greatest' is not encoded)"""
+        if not any(isinstance(x, SV) for x in a):
+            return interp.native(lambda: math.gcd(*a))
+        ctx = interp.ctx
+        g = ctx.fresh("gcd")
+        ts = [ops.zint(x) for x in a]
+        ctx.add_axiom(g.t >= 0)
+        ctx.add_axiom(z3.Implies(g.t == 0, z3.And(*[t == 0 for t in ts])))
+        ctx.add_axiom(z3.Implies(z3.Or(*[t != 0 for t in ts]), g.t >= 1))
+        for t in ts:
+            k = ctx.fresh("gcdk")
+            ctx.add_axiom(t == k.t * g.t)
+            ctx.add_axiom(z3.Implies(g.t >= 1, t % g.t == 0))
+            ctx.add_axiom(z3.Implies(t != 0, z3.And(g.t <= z3.If(t >= 0, t, -t))))
+        # if one argument divides the other, it is the gcd (needed to keep exact-multiple reasoning precise)
+        if len(ts) == 2:
+            x, y = ts
+            ctx.add_axiom(z3.Implies(z3.And(y >= 1, x % y == 0), g.t == y))
+            ctx.add_axiom(z3.Implies(z3.And(x >= 1, y % x == 0), g.t == x))
+        interp.assumptions.add("math.gcd on symbolic arguments: modelled as a common divisor (not necessarily greatest)")
+        return g
+
     NM["math"] = dict(
         prod=NativeFn(_prod, "math.prod"),
         ceil=NativeFn(_ceil, "math.ceil"),
         floor=NativeFn(_floor, "math.floor"),
         log2=NativeFn(_log2, "math.log2"),
-        gcd=NativeFn(lambda interp, *a: interp.native(lambda: math.gcd(*a)) if not any(isinstance(x, SV) for x in a) else (_ for _ in ()).throw(Unsupported("gcd symbolic")), "math.gcd"),
+        gcd=NativeFn(_gcd, "math.gcd"),
         sqrt=NativeFn(lambda interp, x: interp.native(lambda: math.sqrt(x)), "math.sqrt"),
         inf=math.inf,
         pi=math.pi,
